@@ -31,15 +31,17 @@ Proof.
 Qed.
 Print Assumptions C01_acked_exactly_once.
 
-(* A commit that raised (conflict after its retry budget) is not reflected at all; and a reflected
-   commit can only end in success. *)
+(* A commit that raised -- a conflict after its retry budget, or an error / interrupt / process death
+   before its pointer flip -- is not reflected at all; a reflected commit either reported success or
+   was cut off AFTER its own pointer flip (asynchronous interrupt or crash, see C03/C04). *)
 Theorem C01_raised_not_reflected : forall c m0 kind mr evs, sound c ->
   let w := run c (init_world m0 kind mr) evs in
-  forall a, (a_pc (w_actors w a) = PDone Conflict -> ~ In a (map snd (w_hist w)))
-         /\ (In a (map snd (w_hist w)) -> a_pc (w_actors w a) = PFlipped \/ a_pc (w_actors w a) = PDone Success).
+  forall a, (a_pc (w_actors w a) = PDone Conflict \/ a_pc (w_actors w a) = PDone Aborted -> ~ In a (map snd (w_hist w)))
+         /\ (In a (map snd (w_hist w)) ->
+             a_pc (w_actors w a) = PFlipped \/ a_pc (w_actors w a) = PDone Success \/ a_pc (w_actors w a) = PDone AbortedPost).
 Proof.
   intros c m0 kind mr evs S w a. pose proof (reach_acked c m0 kind mr evs S a) as F. fold w in F. split.
-  - intros H In. apply F in In. rewrite H in In. discriminate.
+  - intros [H|H] In; apply F in In; rewrite H in In; discriminate.
   - intro In. apply F in In. destruct (a_pc (w_actors w a)) as [| | | | | | | |[]]; simpl in In; try discriminate; auto.
 Qed.
 Print Assumptions C01_raised_not_reflected.
